@@ -55,6 +55,28 @@ def bytesRepr (b : Bytes) : Str :=
     else [Char.ofNat n]
   'b' :: Char.ofNat q.toNat :: body ++ [Char.ofNat q.toNat]
 
+def hex4 (n : Nat) : Str :=
+  [hexNibble (n / 4096 % 16), hexNibble (n / 256 % 16), hexNibble (n / 16 % 16), hexNibble (n % 16)]
+
+/-- one character of `json.dumps(str)` with `ensure_ascii=True` (`ESCAPE_ASCII`) -/
+def jsonEscChar (c : Char) : Str :=
+  let n := c.toNat
+  if c == '"' then "\\\"".toList
+  else if c == '\\' then "\\\\".toList
+  else if n == 10 then "\\n".toList
+  else if n == 13 then "\\r".toList
+  else if n == 9 then "\\t".toList
+  else if n == 8 then "\\b".toList
+  else if n == 12 then "\\f".toList
+  else if 32 ≤ n && n ≤ 126 then [c]
+  else if n < 65536 then '\\' :: 'u' :: hex4 n
+  else
+    let m := n - 65536
+    ('\\' :: 'u' :: hex4 (55296 + m / 1024)) ++ ('\\' :: 'u' :: hex4 (56320 + m % 1024))
+
+/-- `json.dumps(s)` for a `str` -/
+def jsonStr (s : Str) : Str := '"' :: s.flatMap jsonEscChar ++ ['"']
+
 /-- `s.split()` (runs of white space separate, no empty pieces) -/
 def splitWsGo : Str → Str → List Str
   | [], cur => if cur.isEmpty then [] else [cur.reverse]
